@@ -1007,7 +1007,39 @@ func run(c *vh.Ctx) error {
 	}
 
 	// ---- the rule ----------------------------------------------------------------
-	n := c.Pick(260, 3000)
+	// systematic grid: era x redeemers {absent, empty, present} x datums {absent,
+	// empty, present} x declared hash {correct, absent, random, one piece changed}
+	for i := range eras {
+		e := &eras[i]
+		for red := 0; red < 3; red++ {
+			for dat := 0; dat < 3; dat++ {
+				for _, hm := range []int{0, 1, 2, 3} {
+					s := &txSpec{era: e, dropCM: -1, hashMode: hm}
+					if red > 0 {
+						s.redForm = 1
+						if e.id >= conway.TxTypeConway {
+							s.redForm = 2
+						}
+						s.nRed = (red - 1) * (1 + r.Intn(2))
+					}
+					if dat > 0 {
+						s.datForm = 1
+						if e.id >= conway.TxTypeConway && r.Bool() {
+							s.datForm = 2
+						}
+						s.nDat = (dat - 1) * (1 + r.Intn(2))
+					}
+					s.v1 = r.Bool()
+					s.v2 = r.Bool()
+					s.inKinds = []int{-1}
+					s.cms = costModels(r, c, []uint{0, 1, 2, 3})
+					bt := build(r, s)
+					runRule(c, cf, e, bt.raw, bt.utxos, s.cms, false, fmt.Sprintf("rule-grid/%s/hashmode-%d", e.name, hm))
+				}
+			}
+		}
+	}
+	n := c.Pick(200, 3000)
 	for i := 0; i < n; i++ {
 		e := &eras[r.Intn(len(eras))]
 		s := &txSpec{era: e, dropCM: -1}
